@@ -1,12 +1,15 @@
 package props
 
 import (
+	"context"
 	"fmt"
 	"strings"
+	"time"
 
 	lisp "github.com/jig/lisp"
 	"github.com/jig/lisp/debuggertypes"
 	"github.com/jig/lisp/env"
+	"github.com/jig/lisp/lib/call"
 	"github.com/jig/lisp/types"
 
 	"verifharness/internal/enum"
@@ -265,11 +268,102 @@ func init() {
 				}
 			},
 		}
+		// the same comparison under a context that has ended, or that the program ends itself: what a program
+		// computes includes where it is stopped
+		var cancelNow func()
+		endedProgs := []string{
+			"(do (t! 1) (t! 2) 3)",
+			"(try (do (t! 1) (throw 2)) (catch e (t! e) 5) (finally (t! :fin)))",
+			"(do (def f (fn [n] (if (< n 1) (t! :end) (do (t! n) (f (- n 1)))))) (f 3))",
+			"(do (t! 1) (cancel!) (t! 2) 3)",
+			"(do (def f (fn [n] (if (< n 1) (t! :end) (do (t! n) (if (= n 2) (cancel!)) (f (- n 1)))))) (f 3))",
+			"(let [z (do (t! 1) (cancel!))] (t! 2))",
+			"(do (defmacro mm (fn [a] (list (quote do) (quote (cancel!)) a))) (t! 0) (mm (t! 1)) (t! 2))",
+			"[(t! 1) (cancel!) (t! 2)]",
+		}
+		endedKinds := []string{"cancelled before the evaluation starts", "deadline already passed", "live (the program may end it itself with a Go builtin)"}
+		famE := &vf.Family{
+			Name:   "programs-under-an-ended-context",
+			Bounds: fmt.Sprintf("%d fixed programs (sequences, try/catch/finally, a recursive function, a macro; five of them end their own context through a Go builtin half way) x 3 contexts (cancelled before the start, deadline already passed, live) x every stepper script: value or error text and the ordered effects must be those of the run without a stepper", len(endedProgs)),
+			Setup: func(t string) {
+				setup(t)
+				call.CallOverrideFN(rg.base, "cancel!", func() (types.MalType, error) {
+					if cancelNow != nil {
+						cancelNow()
+					}
+					return nil, nil
+				})
+			},
+			N: func(t string) int64 { tier = t; return int64(len(endedProgs) * len(endedKinds)) },
+			Describe: func(i int64) string {
+				return endedProgs[i/3] + " under a context " + endedKinds[i%3] + " x every stepper script"
+			},
+			Run: func(i int64, r *vf.Rec) {
+				prog, kind := endedProgs[i/3], int(i%3)
+				ast, rerr := lisp.READ(prog, types.NewCursorFile("c18"), nil)
+				if rerr != nil {
+					r.Violation("harness: program does not read", rerr.Error())
+					return
+				}
+				run := func(script []int) string {
+					var ctx context.Context
+					var cancel func()
+					switch kind {
+					case 0:
+						ctx, cancel = context.WithCancel(context.Background())
+						cancel()
+					case 1:
+						ctx, cancel = context.WithDeadline(context.Background(), time.Now().Add(-time.Hour))
+					default:
+						ctx, cancel = context.WithCancel(context.Background())
+					}
+					defer cancel()
+					cancelNow = cancel
+					defer func() { cancelNow = nil }()
+					rg.tracer.Reset()
+					scope := env.NewSubordinateEnv(rg.base)
+					lisp.VerifResetStepFlags()
+					lisp.Stepper = nil
+					if script != nil {
+						calls := 0
+						lisp.Stepper = func(a types.MalType, e types.EnvType) debuggertypes.Command {
+							cmd := script[calls%len(script)]
+							calls++
+							return c18Cmds[cmd]
+						}
+					}
+					res, err, p := lx.Eval(ctx, ast, scope)
+					lisp.Stepper = nil
+					lisp.VerifResetStepFlags()
+					r.Exec(1)
+					var tr []V
+					for _, t := range rg.tracer.Log {
+						tr = append(tr, model.FromImpl(t))
+					}
+					switch {
+					case p != nil:
+						return "panic " + p.String()
+					case err != nil:
+						return "error " + err.Error() + " with effects " + traceStr(tr)
+					}
+					return "value " + model.FromImpl(res).String() + " with effects " + traceStr(tr)
+				}
+				plain := run(nil)
+				r.NT()
+				r.Outcome("without stepper: " + strings.SplitN(plain, " ", 2)[0])
+				for _, sc := range scriptsOf() {
+					if got := run(sc); got != plain {
+						r.ViolationCase("stepper changes the outcome of a program whose context ends", prog+" under a context "+endedKinds[kind]+", script "+scriptName(sc), "without stepper: "+plain+"\nwith stepper:    "+got)
+						return
+					}
+				}
+			},
+		}
 		return &vf.Check{
 			ID: "C18", Level: "model_checking",
 			Rule:        "every program of the bounded spaces is run on the real EVAL without a stepper and under every scripted stepper command sequence (flags reset and read through a test-only export); result, error (thrown payload and the error's full text, position included) and ordered effect trace must be identical; for every (t! sym) form handed to the callback the symbol is resolved in the scope handed along and must equal the effect that follows; the visited (flag state x command) pairs of the stepping machine are reported in outcomes; non-trivial = program with effects",
 			Assumptions: []string{"text printed by the 'next' command is not a program effect", "programs terminate within the host stack (bounded recursion)"},
-			Families:    []*vf.Family{fam},
+			Families:    []*vf.Family{fam, famE},
 		}
 	})
 }
